@@ -166,36 +166,56 @@ impl<K: std::fmt::Debug> std::fmt::Debug for HashSet<K> {
     fn fmt(&self, f: &mut std::fmt::Formatter<'_>) -> std::fmt::Result { self.slots.fmt(f) }
 }
 
-// Verification model of lru::LruCache (API subset used by alias.rs): vector ordered from
-// least recently used (front) to most recently used (back); documented lru 0.12 contract.
-pub(crate) struct LruCache<K, V> { cap: usize, items: Vec<(K, V)> }
+// Verification model of lru::LruCache (API subset used by alias.rs; documented lru 0.12 contract): inline slots ordered
+// from least recently used (slot 0) to most recently used (slot n-1).
+pub(crate) struct LruCache<K, V> { cap: usize, slots: [Option<(K, V)>; MODEL_CAP], n: usize }
 
 impl<K: Eq, V> LruCache<K, V> {
-    pub(crate) fn new(cap: std::num::NonZeroUsize) -> Self { LruCache { cap: cap.get(), items: Vec::new() } }
-    fn find<Q: ?Sized + Eq>(&self, k: &Q) -> Option<usize> where K: Borrow<Q> {
+    pub(crate) fn new(cap: std::num::NonZeroUsize) -> Self {
+        assert!(cap.get() <= MODEL_CAP, "gv model: LruCache model capacity exceeded (harness bound)");
+        LruCache { cap: cap.get(), slots: [None, None, None, None], n: 0 }
+    }
+    pub(crate) fn len(&self) -> usize { self.n }
+    pub(crate) fn clear(&mut self) {
         let mut i = 0;
-        while i < self.items.len() {
-            if self.items[i].0.borrow() == k { return Some(i); }
+        while i < MODEL_CAP { self.slots[i] = None; i += 1; }
+        self.n = 0;
+    }
+    pub(crate) fn peek<Q: ?Sized + Eq>(&self, k: &Q) -> Option<&V> where K: Borrow<Q> {
+        let mut i = 0;
+        while i < self.n {
+            if let Some(kv) = &self.slots[i] { if kv.0.borrow() == k { return Some(&kv.1); } }
             i += 1;
         }
         None
     }
-    pub(crate) fn len(&self) -> usize { self.items.len() }
-    pub(crate) fn clear(&mut self) { self.items.clear() }
-    pub(crate) fn peek<Q: ?Sized + Eq>(&self, k: &Q) -> Option<&V> where K: Borrow<Q> { self.find(k).map(|i| &self.items[i].1) }
-    pub(crate) fn peek_lru(&self) -> Option<(&K, &V)> { self.items.first().map(|kv| (&kv.0, &kv.1)) }
-    pub(crate) fn promote<Q: ?Sized + Eq>(&mut self, k: &Q) where K: Borrow<Q> {
-        if let Some(i) = self.find(k) { let e = self.items.remove(i); self.items.push(e); }
+    pub(crate) fn peek_lru(&self) -> Option<(&K, &V)> { if self.n == 0 { None } else { self.slots[0].as_ref().map(|kv| (&kv.0, &kv.1)) } }
+    fn take_at(&mut self, i: usize) -> Option<(K, V)> {
+        let out = self.slots[i].take();
+        let mut j = i;
+        while j + 1 < self.n { self.slots[j] = self.slots[j + 1].take(); j += 1; }
+        self.n -= 1;
+        out
     }
-    pub(crate) fn pop_lru(&mut self) -> Option<(K, V)> { if self.items.is_empty() { None } else { Some(self.items.remove(0)) } }
-    pub(crate) fn push(&mut self, k: K, v: V) -> Option<(K, V)> {
-        if let Some(i) = self.find(&k) {
-            let old = self.items.remove(i);
-            self.items.push((k, v));
-            return Some(old);
+    fn push_back(&mut self, e: (K, V)) { self.slots[self.n] = Some(e); self.n += 1; }
+    pub(crate) fn promote<Q: ?Sized + Eq>(&mut self, k: &Q) where K: Borrow<Q> {
+        let mut i = 0;
+        while i < self.n {
+            let hit = match &self.slots[i] { Some(kv) => kv.0.borrow() == k, None => false };
+            if hit { if let Some(e) = self.take_at(i) { self.push_back(e); } return; }
+            i += 1;
         }
-        let evicted = if self.items.len() >= self.cap { Some(self.items.remove(0)) } else { None };
-        self.items.push((k, v));
+    }
+    pub(crate) fn pop_lru(&mut self) -> Option<(K, V)> { if self.n == 0 { None } else { self.take_at(0) } }
+    pub(crate) fn push(&mut self, k: K, v: V) -> Option<(K, V)> {
+        let mut i = 0;
+        while i < self.n {
+            let hit = match &self.slots[i] { Some(kv) => kv.0 == k, None => false };
+            if hit { let old = self.take_at(i); self.push_back((k, v)); return old; }
+            i += 1;
+        }
+        let evicted = if self.n >= self.cap { self.take_at(0) } else { None };
+        self.push_back((k, v));
         evicted
     }
 }
